@@ -902,4 +902,83 @@ theorem scramble_legal (rmZero : Bool) (sol : List α) (σ : List Nat) (h : scra
   · subst hz
     exact permuteBy_id sol r hr
 
+/-! ### the executable predicates of step O hold on the model -/
+
+theorem translocHolds_model (l : List Nat) (s e i : Nat) :
+    translocHolds l s e i (translocateSlice l s e i) (translocateSlice2 l s e i) = true := by
+  unfold translocHolds
+  cases h : translocValid l.length s e i with
+  | false => simp
+  | true =>
+    rw [translocateSlice_eq l s e i h, translocateSlice2_eq l s e i h]
+    simp only [if_true, beq_self_eq_true, Bool.true_and, Bool.and_true]
+    have h4 : s ≤ e := by
+      simp only [translocValid, Bool.and_eq_true, decide_eq_true_eq] at h; exact h.1.2
+    exact List.isPerm_iff.mpr (translocSpec_perm l s e i h4)
+
+theorem cswapSpec_eq (l : List Nat) (idx : List Nat) (r : List Nat) (_hn : idx.Nodup) (h2 : 2 ≤ idx.length)
+    (hc : Cyc l idx.reverse r) : r = cswapSpec l idx := by
+  apply List.ext_getElem?
+  intro p
+  unfold cswapSpec
+  simp only [List.getElem?_map, List.getElem?_range]
+  by_cases hp : p < l.length
+  · simp only [hp, List.getElem?_range, Option.map_some]
+    by_cases hm : p ∈ idx
+    · have hcon : idx.contains p = true := by simpa using hm
+      simp only [hcon, if_true]
+      -- p = idx[k]
+      have hk : idx.idxOf p < idx.length := List.idxOf_lt_length_of_mem hm
+      set k := idx.idxOf p with hkdef
+      have hpk : idx[k] = p := List.getElem_idxOf hk
+      set k' := (k + idx.length - 1) % idx.length with hk'def
+      have hk'lt : k' < idx.length := Nat.mod_lt _ (by omega)
+      have hmod : (k' + 1) % idx.length = k := by
+        by_cases h0 : k = 0
+        · have : k' = idx.length - 1 := by
+            rw [hk'def, h0]; simp
+          rw [this, h0]
+          have : idx.length - 1 + 1 = idx.length := by omega
+          rw [this]; exact Nat.mod_self _
+        · have : k' = k - 1 := by
+            rw [hk'def]
+            have : k + idx.length - 1 = (k - 1) + idx.length := by omega
+            rw [this, Nat.add_mod_right]; exact Nat.mod_eq_of_lt (by omega)
+          rw [this]
+          have : k - 1 + 1 = k := by omega
+          rw [this]; exact Nat.mod_eq_of_lt hk
+      have hmv := Cyc.moves l idx r hc k' hk'lt
+      simp only [hmod] at hmv
+      rw [hpk] at hmv
+      rw [hmv]
+      have hin : idx[k'] < l.length := by
+        -- the right-hand side is `some`, because r[p]? is (p < r.length)
+        have : p < r.length := by rw [hc.len]; exact hp
+        rw [List.getElem?_eq_getElem this] at hmv
+        exact (List.getElem?_eq_some_iff.mp hmv.symm).1
+      rw [List.getElem?_eq_getElem hin]
+      simp [getElem!_pos, hk'lt, hin]
+    · have hcon : idx.contains p = false := by simpa using hm
+      simp only [hcon, Bool.false_eq_true, if_false]
+      rw [hc.off p (by simpa using hm), List.getElem?_eq_getElem hp]
+      simp [getElem!_pos, hp]
+  · have : l.length ≤ p := Nat.le_of_not_lt hp
+    simp [hp, List.getElem?_eq_none, hc.len, this]
+
+theorem cswapHolds_model (l : List Nat) (idx : List Nat) :
+    cswapHolds l idx (circularSwap l idx) (circularSwap2 l idx) = true := by
+  unfold cswapHolds
+  cases h : cswapValid l.length idx with
+  | false => simp
+  | true =>
+    simp only [cswapValid, Bool.and_eq_true, decide_eq_true_eq, nodupNat_iff, allBelow_iff] at h
+    obtain ⟨⟨h2, hn⟩, hr⟩ := h
+    obtain ⟨r1, e1, c1⟩ := circularSwap_cyc l idx hn h2 hr
+    obtain ⟨r2, e2, c2⟩ := circularSwap2_cyc l idx hn h2 hr
+    have e12 : r1 = r2 := Cyc.unique l _ r1 r2 c1 c2
+    subst e12
+    rw [e1, e2]
+    simp only [if_true, beq_self_eq_true, Bool.true_and, Bool.and_eq_true, beq_iff_eq]
+    exact ⟨List.isPerm_iff.mpr (circularSwap_perm l r1 idx e1), cswapSpec_eq l idx r1 hn h2 c1⟩
+
 end MahfModel.Variation
